@@ -58,14 +58,11 @@ Definition canon_of (tbl:list centry) (M:obj) (src:option obj) : res str :=
 Definition srcs_of_sx (x:sx) : option (list (list obj)) :=
   match x with SL l => all_some (map objs_of_sx l) | _ => None end.
 
-Definition sx_unused (u:unused_out) : sx :=
-  match u with
-  | UUnmodelled => SL [SA (s_ "unmodelled")]
-  | UList l => SL [SA (s_ "ok"); SL (map (fun pl => SL [SA (fst pl); sx_nat (snd pl)]) l)]
-  end.
+Definition sx_unused (l:list (str * nat)) : sx :=
+  SL [SA (s_ "ok"); SL (map (fun pl => SL [SA (fst pl); sx_nat (snd pl)]) l)].
 
 (* (master sources env canon-table diff track) ->
-     res (result-objects  (none) | (unmodelled) | (ok ((path line) ...))) *)
+     res (result-objects  (none) | (ok ((path line) ...))) *)
 Definition run_fetch (x:sx) : sx :=
   match x with
   | SL [m; ss; e; t; d; tr] =>
